@@ -70,7 +70,24 @@ func c03Docs(tier string) []*val.V {
 	} {
 		docs = append(docs, fromJSONText(h))
 	}
+	// documents with anchors, aliases and merge keys: deleted from after explode(.) (which rebuilds the maps that merge)
+	for _, h := range c03RawDocs {
+		docs = append(docs, c03Raw(h))
+	}
 	return docs
+}
+
+var c03RawDocs = []string{
+	"b: &b {a: 1, ab: 0}\na: {<<: *b, b: 1}\nab: [*b, 1]\n",
+	"- &m {a: 1, b: [1, 0]}\n- {<<: *m, ab: 1}\n- {ab: 0, <<: [*m]}\n",
+	"a: &s [1, 0, 1]\nb: *s\nab: {a: *s, b: &t {a: 1}, c: {<<: *t}}\n",
+}
+
+// c03Raw: a document given as YAML text; its pipelines start with explode(.)
+func c03Raw(text string) *val.V {
+	v := fromJSONText(text)
+	v.Raw = text
+	return v
 }
 
 // c03LeafDocs are deleted from as decoded only (no derivation: several operators rebuild a map by key text, which would give a
@@ -195,6 +212,9 @@ func c03Run(c *fw.Ctx) error {
 		}
 		seen := map[uint64]bool{}
 		frontier := []st{{nil}}
+		if doc.Raw != "" {
+			frontier = []st{{[]string{"explode(.)"}}}
+		}
 		for depth := 0; depth <= maxDepth; depth++ {
 			var next []st
 			for _, s := range frontier {
@@ -319,7 +339,11 @@ func c03Replay(raw json.RawMessage) (bool, string, error) {
 		}
 		return true, fmt.Sprintf("del(%s): %s: %s", cs.Sel.String(), kind, detail), nil
 	}
-	kind, detail := c03Check(fromJSONText(cs.Doc), cs.Pipe, cs.Sel)
+	doc := fromJSONText(cs.Doc)
+	if len(cs.Pipe) > 0 && cs.Pipe[0] == "explode(.)" {
+		doc = c03Raw(cs.Doc)
+	}
+	kind, detail := c03Check(doc, cs.Pipe, cs.Sel)
 	if kind == "" || kind == "undef" {
 		return false, "", nil
 	}
